@@ -29,6 +29,7 @@ static void one_size(size_t a) {
   printf("ptrseg %zu -> %zu\n", a, (size_t)_mi_ptr_segment((void*)a));
   printf("pow2 %zu -> %d\n", a, (int)_mi_is_power_of_two(a));
   printf("bcount %zu -> %zu\n", a, mi_block_count_of_size(a));
+  printf("absize %zu -> %zu\n", a, mi_arena_block_size(a));
 }
 int main(int argc, char** argv) {
   uint64_t seed = argc > 1 ? strtoull(argv[1], 0, 10) : 1;
